@@ -139,6 +139,25 @@ def run(ctx) -> None:
     ctx.check(osites > 0, RX, "add-watch failures are absorbed inside read_events", "no absorbed add-watch failure found (fault model not exercised)", fi.loc)
     ctx.extra["tabled_hits"] = sorted(set(cfg.tabled_hits))
 
+    # the `wd == -1` filter in front of the wd->path lookup is the guard for the kernel's queue-overflow record; it only works
+    # on a *signed* descriptor (shared with C20/header-constants-agree)
+    from .c20 import expand_format, struct_format_of
+
+    pfi = P.find_method("Inotify", "_parse_event_buffer")
+    if pfi is None:
+        raise AnalysisError("anchor vanished: Inotify._parse_event_buffer")
+    fmt_, _nt, _ln, ucall, _ = struct_format_of(P, pfi)
+    if not isinstance(fmt_, str):
+        raise AnalysisError("_parse_event_buffer: unpack format not found")
+    codes = expand_format(fmt_)
+    ctx.check(
+        codes[:1] in ("i", "l", "q", "h", "b"),
+        RX,
+        "overflow record (wd = -1) is recognisable: the decoder yields a signed descriptor",
+        f"the record head is decoded with {fmt_!r}: the descriptor comes out unsigned, IN_Q_OVERFLOW's wd = -1 arrives as 4294967295, passes the `wd == -1` filter and `self._path_for_wd[wd]` raises KeyError in the reader thread (monitoring dies silently after a burst of > 16384 pending events)",
+        f"{pfi.module.relpath}:{ucall.lineno}",
+    )
+
     # the buffer thread iterates whatever read_events returns: every normal exit must return a list
     nret = 0
     for p in paths:
@@ -447,6 +466,7 @@ VARIANTS = [
     dict(name="B moved_from lookup without membership test", expect="fire", rule="C07/thread-body-exception-flow", edits=[(IC, "        if destination_event.cookie in self._moved_from_events:\n            return self._moved_from_events[destination_event.cookie].src_path\n\n        return None", "        return self._moved_from_events[destination_event.cookie].src_path")]),
     dict(name="B read_events returns None after close", expect="fire", rule="C07/thread-body-exception-flow", edits=[(IC, "                    if self._closed:\n                        self._close_resources()\n                        return []", "                    if self._closed:\n                        self._close_resources()\n                        return None")]),
     dict(name="B emitter re-reads the buffer field after its None-test (pre-fix)", expect="fire", rule="C07/cleared-field-read-once", edits=[(IN, "            inotify = self._inotify\n            if inotify is None:\n", "            inotify = self._inotify\n            if self._inotify is None:\n"), (IN, "            event = inotify.read_event()", "            event = self._inotify.read_event()")]),
+    dict(name="B descriptor decoded unsigned (overflow record passes the filter)", expect="fire", rule="C07/thread-body-exception-flow", edits=[(IC, 'struct.unpack_from("iIII", event_buffer, i)', 'struct.unpack_from("IIII", event_buffer, i)')]),
     dict(name="B reader normalises its root", expect="fire", rule="C07/root-spelling-preserved", edits=[(IC, "        self._path = path\n", "        self._path = path = os.path.normpath(path)\n")]),
     dict(name="B emitter resolves the root before watching", expect="fire", rule="C07/root-spelling-preserved", edits=[(IN, "        path = os.fsencode(self.watch.path)\n", "        path = os.path.realpath(os.fsencode(self.watch.path))\n")]),
     dict(name="B root test against the absolute path", expect="fire", rule="C07/root-spelling-preserved", edits=[(IN, "elif event.is_delete_self and src_path == self.watch.path:", "elif event.is_delete_self and src_path == os.path.abspath(self.watch.path):")]),
